@@ -68,11 +68,16 @@ def radial_displaced_even_power(k, r0, p):
 
 
 def bending(k, phi0, ri, rj, rk):
+    """U = k/2 (phi - phi0)^2 with phi the angle at j; the angle is taken as atan2(|a x b|, a.b), which (unlike acos of
+    the normalised dot product) is well conditioned for every angle, so that finite differences of it are not noisy."""
     a = [ri[n] - rj[n] for n in range(len(ri))]
     b = [rk[n] - rj[n] for n in range(len(ri))]
-    c = math.fsum(x * y for x, y in zip(a, b)) / (norm(a) * norm(b))
-    c = max(-1.0, min(1.0, c))
-    phi = math.acos(c)
+    dot = math.fsum(x * y for x, y in zip(a, b))
+    if len(a) == 2:
+        cross = abs(a[0] * b[1] - a[1] * b[0])
+    else:
+        cross = norm([a[1] * b[2] - a[2] * b[1], a[2] * b[0] - a[0] * b[2], a[0] * b[1] - a[1] * b[0]])
+    phi = math.atan2(cross, dot)
     return 0.5 * k * (phi - phi0) ** 2
 
 
